@@ -117,6 +117,16 @@ SCRIPTS = [
 ]
 
 
+# scripted stale-listing windows: while A's server is parked at its first staging open, B commits a directory where A is about
+# to send a file (A parked on that very Put, or on an earlier one), or a file where A is about to send into a directory
+CLASH_RACES = [
+    {"hub": {}, "A": {"d": 2, "with space/q'uote": 2}, "B": {"d/b": 1}},
+    {"hub": {}, "A": {"a": 2, "d": 2, "with space/q'uote": 1}, "B": {"d/b": 1, "a": 1}},
+    {"hub": {"a": 1}, "A": {"a": 2, "d/b": 2, "with space/q'uote": 2}, "B": {"d": 1}},
+    {"hub": {}, "A": {"a": 4, "d/b": 1, "d\\b": 2}, "B": {"d": 3}},
+]
+
+
 def run_history(job):
     seed, length = job[0], job[1]
     script = job[2] if len(job) > 2 else None
@@ -171,6 +181,10 @@ def race(job):
     la[k], lb[k] = 2, rng.choice([1, 3])          # at least one path both want, with different content
     if hub0[k] == lb[k]:
         lb[k] = 3 if lb[k] == 1 else 1
+    if len(job) > 3:
+        # a scripted window: the three trees are given (file / directory clashes between what A sends and what B commits)
+        hub0, la, lb = (_tree_of(job[3][x]) for x in ("hub", "A", "B"))
+        write_tree(hub, hub0)
     A, B = os.path.join(d, "localA"), os.path.join(d, "localB")
     write_tree(A, la)
     write_tree(B, lb)
@@ -233,7 +247,10 @@ def race(job):
     ls.close()
     after, conf_a, alien = read_hub(hub)
     ra = resA.get("r", (99, -1, -1, -1, "no result"))
-    return [{"kind": "race", "names": NAMES, "form": form, "hub": hub0, "localA": la, "localB": lb, "hub2": after, "conf2": conf_a, "alien": alien,
+    i, j = NAMES.index("d"), NAMES.index("d/b")
+    # A's own files whose path is a file where B committed a directory, or the reverse (no Put can store them at their path)
+    clash = [bool((k == i and la[i] and lb[j]) or (k == j and la[j] and lb[i])) for k in range(len(NAMES))]
+    return [{"kind": "race", "names": NAMES, "form": form, "hub": hub0, "localA": la, "localB": lb, "hub2": after, "conf2": conf_a, "alien": alien, "clash": clash,
              "exitA": ra[0], "sentA": ra[1], "conflictsA": ra[3], "exitB": state["resB"][0], "held": held, "hold_at": hold_at, "stderrA": ra[4][-160:]}]
 
 
